@@ -167,6 +167,20 @@ def v2(ctx, fx, U):
                         key = n.kids[1]
                         params = [i for i in range(1, fn.arg_count + 1) if c07.is_json_ty(fn.local_ty(i))]
                         pk = must(key, lambda x: x.kind == "param" and x.fn is fn and x.d["idx"] in params)
+                        if not pk:
+                            # the digest arrives as a string parameter (conversion done by the caller): every call site in the unpacking family
+                            # must take it from the JSON structure it is unpacking
+                            sps = [i for i in range(1, fn.arg_count + 1) if (fn.local_ty(i) or "").lstrip("&") in ("str", "std::string::String")]
+                            if sps and must(key, lambda x: x.kind == "param" and x.fn is fn and x.d["idx"] in sps):
+                                sites = []
+                                for cf in U.fns:
+                                    cv = vals(cf)
+                                    cps = [i for i in range(1, cf.arg_count + 1) if c07.is_json_ty(cf.local_ty(i))]
+                                    for b2, t2 in cf.calls():
+                                        if t2.get("resolved") == fn.name and cf.name != fn.name:
+                                            cn = cv.call_node(b2)
+                                            sites.append(all(must(cn.kids[i - 1], lambda x: x.kind == "param" and x.fn is cf and x.d["idx"] in cps) for i in sps if i - 1 < len(cn.kids)))
+                                pk = bool(sites) and all(sites)
                         if pk:
                             ctx.ok("C03.V2", fn, "keyed:%s" % nm, "lookup key must-derives from the JSON structure being unpacked (parameter)", line=t.get("line"))
                         else:
@@ -193,6 +207,10 @@ def v2(ctx, fx, U):
                 # the digest-carrying parameter(s) of callee
                 for (lf, lb, ln) in U.lookups:
                     if lf is not callee:
+                        continue
+                    # the callee reads the digest from the reserved member itself (`_sd` entry / `...` value of its own parameter): nothing is owed here
+                    if must(ln.kids[1], lambda x: x.kind == "call" and x.d["term"].get("name") in ("get", "index") and len(x.kids) > 1 and const_value(x.kids[1]) in ("_sd", "...")):
+                        ctx.ok("C03.V2", callee, "digest-source:%s" % callee.name.split("::")[-1], "the digest is read from the `_sd` / `...` member inside %s" % callee.name.split("::")[-1], line=callee.term(lb).get("line"))
                         continue
                     ps = [x for x in walk(ln.kids[1]) if x.kind == "param" and x.fn is callee]
                     for p in ps:
@@ -263,7 +281,26 @@ def v5(ctx, fx, U):
         rets = [fv._rv(e["rv"], e["bb"], e["idx"]) for e in cfg.exit_sites(fn) if e["kind"] == "Ok" and "rv" in e]
         okp = True
         for (f, b, n) in lst:
-            if not any(any(x.kind == "mut" and x.kids[1] is n for x in walk(r)) for r in rets):
+            if any(any(x.kind == "mut" and x.kids[1] is n for x in walk(r)) for r in rets):
+                continue
+            recv = peel(n.kids[0])
+            g_ = 0
+            while recv.kind == "index" and recv.kids and g_ < 3:
+                recv = peel(recv.kids[0])
+                g_ += 1
+            via_param = False
+            if recv.kind == "param":
+                # out-parameter: at every call site the vector handed in is the one the caller returns
+                sites = []
+                for cf in U.fns:
+                    cv = vals(cf)
+                    crets = [cv._rv(e["rv"], e["bb"], e["idx"]) for e in cfg.exit_sites(cf) if e["kind"] == "Ok" and "rv" in e]
+                    for b2, t2 in cf.calls():
+                        if t2.get("resolved") == fn.name and cf.name != fn.name:
+                            cn = cv.call_node(b2)
+                            sites.append(any(any(x.kind == "mut" and x.kids[1] is cn for x in walk(r)) for r in crets))
+                via_param = bool(sites) and all(sites)
+            if not via_param:
                 okp = False
         reorder = [t.get("name") for b, t in fn.calls() if t.get("name") in ("insert", "swap", "reverse", "sort", "sort_by", "rotate_left", "remove", "swap_remove", "truncate", "retain", "dedup")
                    and (t.get("self_ty") or "").startswith("std::vec::Vec<serde_json::Value>")]
@@ -360,7 +397,9 @@ def v6(ctx, fx, U, rule):
         chk(ctx, rule, fn, fn.term(b).get("line"), "copied-member-rewalked", ok, "a visible member's value is the walker's result on every path",
             "a visible member's value can be copied to the output without being unpacked")
     for (fn, b, node) in U.arr_pushes:
-        if any(f is fn for (f, e, i, l) in U.elem_sinks):
+        if (fn.name, b) in U.push_sink_bbs:
+            continue  # this push IS an element sink (judged above)
+        if any(f is fn and e.get("kind") != "push" for (f, e, i, l) in U.elem_sinks):
             continue
         v = node.kids[1]
         # pushes of an element sink's Some payload are judged at the sink
